@@ -359,7 +359,32 @@ def part_assumptions(ctx, n):
                 ctx.notes.append(f"inconclusive: {r['e1'][:300]} || {r['e2'][:300]}")
 
 
+def known_probe(ctx):
+    """deterministic probe of the recorded idempotence finding"""
+    from adcgen import Expr
+    spec = [(S.One, [("ampl", "t1cc", (("a", ""), ("b", "")), (("i", ""), ("l", "")), 0),
+                     ("ampl", "t1", (("a", ""), ("c", "")), (("j", ""), ("k", "")), 0)])]
+    sy = G.build_expr(spec)
+    tgt = [G.sym_idx((c, "")) for c in "bcijkl"]
+    try:
+        e = Expr(sy, real=True, sym_tensors=["t1"], target_idx=tgt)
+        e2 = Expr(e.sympy, real=True, sym_tensors=["t1"], target_idx=tgt)
+    except Exception as ex:
+        ctx.notes.append(f"known-finding probe: {ex!r}")
+        return
+    ctx.count("known_finding_probe")
+    if e2.sympy != e.sympy:
+        ctx.violation("declaring the same assumptions again changed the expression (not idempotent)",
+                      {"kind": "known-probe", "input": str(sy), "first": str(e), "second": str(e2)},
+                      key="idempotence:real+complex-conjugate-t-amplitude+declared-braket-symmetry-of-its-real-name")
+
+
 def run(ctx):
+    run_main(ctx)
+    known_probe(ctx)
+
+
+def run_main(ctx):
     part_constructors(ctx, ctx.pick(700, 12000))
     part_deltas(ctx, ctx.pick(1500, 20000))
     part_subs(ctx, ctx.pick(1500, 20000))
